@@ -527,6 +527,24 @@ def oracle(ctx):
                 if got != want:
                     ctx.violation('an element that fills a slot and uses a macro: its own fill-slot children fill the slots of the macro it uses',
                                   {'lib': lib2.body, 'caller': caller.body}, expected=want, actual=got)
+    # D-09e (fixed): a define-slot inside a translated element of the macro - the filler is part of the message, where the slot stood
+    D09E_CASES = [(D09E, '<div><p>Hello <b>d</b> end</p><p>Hello <b>FILL</b> end</p></div>'),
+                  ('<div><p metal:define-macro="m" i18n:translate="">Hello <b i18n:name="who"><s metal:define-slot="x">dx</s></b>!</p>'
+                   '<x metal:use-macro="template.macros[\'m\']"><f metal:fill-slot="x">W ${1 + 1}</f></x></div>',
+                   '<div><p>Hello <b><s>dx</s></b>!</p><p>Hello <b><f>W 2</f></b>!</p></div>'),
+                  ('<div><p metal:define-macro="m">A<i i18n:translate="">in <b metal:define-slot="s">d</b> here</i>Z</p>'
+                   '<x metal:use-macro="template.macros[\'m\']"><b metal:fill-slot="s"><q tal:on-error="string:E">x${1/0}</q>!</b></x></div>',
+                   '<div><p>A<i>in <b>d</b> here</i>Z</p><p>A<i>in <b><q>E</q>!</b> here</i>Z</p></div>')]
+    for src, want in D09E_CASES:
+        ctx.count('evaluations')
+        nt += 1
+        try:
+            got = PageTemplate(src)()
+        except Exception as e:
+            got = {'exc': type(e).__name__, 'msg': str(e).split('\n')[0][:100]}
+        if got != want:
+            ctx.violation('a define-slot inside a translated element: the filler replaces the slot where it stands (inside the message)',
+                          {'src': src}, expected=want, actual=got)
     ctx.counters['nontrivial'] = nt
     ctx.sample({'metal': meta[0][0], 'inlined': meta[0][1]})
     # known findings
@@ -572,14 +590,6 @@ D09E = ('<div><p metal:define-macro="m" i18n:translate="">Hello <b metal:define-
 
 
 def reproduce_finding(ctx, f):
-    if f['id'] == 'D-09e':
-        from chameleon import PageTemplate
-        try:
-            out = PageTemplate(D09E)()
-        except Exception:
-            return False
-        # inlining gives '<p>Hello <b>FILL</b> end</p>' for the use
-        return out == '<div><p>Hello <b>d</b> end</p><p><b>FILL</b>Hello end</p></div>'
     return None
 
 
